@@ -773,3 +773,8 @@ CHECKS = [
     Check("groups", judge_group, strategy=lambda tier: group_case(), quick=800, thorough=30000,
           rule="scale_to / GroupScale (number or selector target, allow_* flags) / ScaleTo over groups of histograms and graphs."),
 ]
+
+
+from .. import covfuzz  # noqa
+CHECKS.append(covfuzz.check(CHECKS, "harness.props.c12", "hist_add", quick=3000, thorough=80000))
+CHECKS.append(covfuzz.check(CHECKS, "harness.props.c12", "graph_scale", quick=3000, thorough=80000))
